@@ -624,6 +624,9 @@ class AgentsMgt(MessagePassingComputation):
 
         # To wait for agent when stopping
         self._all_agt_stopped = threading.Event()
+        # Set once the agents have been requested to stop: an agent that
+        # registers later must be told to stop as well.
+        self._stop_requested = False
 
         # metrics
         # Storing metrics for agent across several cycles :
@@ -718,6 +721,10 @@ class AgentsMgt(MessagePassingComputation):
             self._send_mgt_msg(
                 agent, SetMetricsModeMessage(self._collect_moment,
                                              self._collect_period))
+            if self._stop_requested:
+                # The stop order has already been sent to the agents that
+                # were registered then: this late agent would never stop.
+                self._send_mgt_msg(agent, StopAgentMessage())
 
             missing = []
             for agt in self.initial_dist.agents:
@@ -1183,6 +1190,7 @@ class AgentsMgt(MessagePassingComputation):
 
         Careful : This must be called from the orchestrator's agent thread.
         """
+        self._stop_requested = True
         active_agents = self.discovery.agents()
         if not active_agents:
             self.logger.info('No agents to stop')
